@@ -333,7 +333,17 @@ impl<M: wire::Decode> wire::Decode for Frame<M> {
             Ok(StreamKind::Gossip) => {
                 let data = varint::payload::decode(reader)?;
                 let mut cursor = io::Cursor::new(data);
-                let msg = M::decode(&mut cursor)?;
+                // Nb. The payload is complete at this point. If the message runs past
+                // the end of it, the frame is invalid: receiving more data will never
+                // make it valid. Hence this must not be reported as an end-of-file,
+                // which callers take to mean "incomplete frame".
+                let msg = M::decode(&mut cursor).map_err(|err| {
+                    if err.is_eof() {
+                        wire::Error::Io(io::ErrorKind::InvalidData.into())
+                    } else {
+                        err
+                    }
+                })?;
                 let frame = Frame {
                     version,
                     stream,
